@@ -5,6 +5,8 @@ Driver glue for C36.  Bytes are lower-case hex, `-` = empty.
      two channel endpoints after the open handshake (local window / local max packet of A and of B, all ≥ 1)
      ops (side `a` / `b`):
        `wa:<hex>`            channel.write            `xa:<t>:<hex>`  channel.writeExtended(t, …)
+       `sa:<L|T|G>:<hex>/<hex>/…`  channel.writeSequence(list / tuple / one-shot generator of the pieces; `~` = none)
+       (`<hex>` may also be `#<n>.<k>`: the n bytes (k + i) % 251)
        `la`                  channel.loseConnection   `da`            deliver the oldest queued message to a
        `ia:D:<hex>` `ia:X:<t>:<hex>` `ia:W:<n>` `ia:C`   a message handed to a's connection out of band
        `z`                   deliver (to a first, else to b) until both queues are empty (≤ 3000 deliveries);
@@ -31,8 +33,23 @@ def decHexL : List Char → Option Bytes
     let r ← decHexL rest
     pure (UInt8.ofNat (x * 16 + y) :: r)
 
+/-- `#<n>.<k>` = the n bytes `(k + i) % 251` (large data without a large line) -/
+def decPattern (s : String) : Option Bytes :=
+  match (s.drop 1).toString.splitOn "." with
+  | [n, k] => do
+    let n ← n.toNat?
+    let k ← k.toNat?
+    pure ((List.range n).map fun i => UInt8.ofNat ((k + i) % 251))
+  | _ => none
+
 def decHex (s : String) : Option Bytes :=
-  if s = "-" then some [] else if s.isEmpty then none else decHexL s.toList
+  if s = "-" then some [] else if s.isEmpty then none
+  else if s.startsWith "#" then decPattern s
+  else decHexL s.toList
+
+/-- the argument of `writeSequence`: `~` = no piece, else pieces separated by `/` -/
+def decPieces (s : String) : Option (List Bytes) :=
+  if s = "~" then some [] else (s.splitOn "/").mapM decHex
 
 def hexChar (n : Nat) : Char :=
   if n < 10 then Char.ofNat ('0'.toNat + n) else Char.ofNat ('a'.toNat + n - 10)
@@ -97,6 +114,13 @@ def decOp (s : String) : Option (Option POp) :=
             if k = 'w' then
               match fs with
               | [h] => (decHex h).map fun d => some (.act sd (.write d))
+              | _ => none
+            else if k = 's' then
+              match fs with
+              | [kind, ps] =>
+                if kind = "L" ∨ kind = "T" ∨ kind = "G" then
+                  (decPieces ps).map fun ds => some (.act sd (.write (joinPieces ds)))
+                else none
               | _ => none
             else if k = 'x' then
               match fs with
